@@ -95,7 +95,7 @@ def catalogue(M, cls, rng):
             out.append(("self-bond", [ad, p, p]))
         out.append(("self-bond", ["add_bond", p, p, {"bond_order": 1}]))
     # --- non-element
-    for bad in ("Xx", 0, 119, None, "", -6, "carbon", 6.5):
+    for bad in ("Xx", 0, 119, None, "", -6, "carbon", 6.5, {"$np": ["float64", 6.7]}, {"$np": ["float32", 1.5]}, {"$np": ["float64", 118.2]}, {"$np": ["int64", 0]}, {"$np": ["int64", 119]}):
         out.append(("non-element", ["add_atom", X, bad]))
         if p is not None:
             out.append(("non-element", ["add_atom", p, bad]))
